@@ -20,14 +20,16 @@ REPLAY_KIND = 'input'
 EXHAUSTIVE = {'quick': False, 'thorough': False}
 IMPL_TIMEOUT = 1500
 COQ_SHARD = 120      # ddl cases are large terms: smaller files elaborate faster and spread over the cores
-RULE = ('five case streams from one PRNG: (ddl) random class declarations, 1..6 columns over 16 column kinds x '
+RULE = ('six case streams from one PRNG: (ddl) random class declarations, 1..6 columns over 16 column kinds x '
         '(dbName, length/varchar, notNone, unique in {unset,False,True}, alternateID, default, defaultSQL, cascade in '
         '{None,True,False,"null"}, refColumn, enum values with quotes/backslashes/commas/None), custom table/idName/idType/idSize, '
         'three styles x longID, unique and multi-column indexes (mysql prefix lengths), RelatedJoin/MultipleJoin towards a second class, '
         'server capability flags; rendered for all seven dialects and executed + introspected on sqlite incl. insert/read-back and '
         'create-if-missing / drop-if-present twice; (join) pairs of classes with mirrored / one-sided / switched-off joins created in both '
         'orders; (evo) addColumn/delColumn(changeSchema=True) sequences on a populated sqlite table with an index and a referencing child; '
-        '(idem) random createTable/dropTable sequences with and without the if-flags; (style) mixedToUnder/underToMixed on an exhaustive '
+        '(idem) random createTable/dropTable sequences with and without the if-flags and out-of-band DROP TABLE; '
+        '(decoy) a foreign table, created out of band, whose name the wanted table or link table name matches when _ is read as a wildcard '
+        '(or that differs in letter case), then create-if-missing twice, insert/read back, drop-if-present twice; (style) mixedToUnder/underToMixed on an exhaustive '
         'small alphabet (lengths <= 4 quick, <= 5 thorough) plus random identifiers. '
         'Non-trivial = at least one option other than the defaults is used / the op sequence changes the schema; '
         'distinct = distinct declaration, op sequence or string.')
@@ -624,6 +626,52 @@ def gen_idem_case(rng):
     return {'k': 'idem', 'a': c['a'], 'b': c['b'], 'ops': ops}
 
 
+def decoy_name(rng, wanted, kind):
+    """a DIFFERENT table name that the wanted one matches when `_` is read as a wildcard
+    (kind 'wild': some `_` replaced by a letter or digit; 'wildcase': that, in upper case),
+    or that differs in letter case only ('case')"""
+    if kind == 'case':
+        alt = [wanted.upper(), wanted.capitalize(), wanted.swapcase()]
+        alt = [a for a in alt if a != wanted]
+        return rng.choice(alt) if alt else None
+    pos = [i for i, ch in enumerate(wanted) if ch == '_']
+    if not pos:
+        return None
+    chosen = [i for i in pos if rng.random() < 0.6] or [rng.choice(pos)]
+    out = list(wanted)
+    for i in chosen:
+        out[i] = rng.choice('2x9Q')
+    if kind == 'wildcase':
+        out = list(''.join(out).upper())
+    return ''.join(out)
+
+
+def gen_decoy_case(rng):
+    a = rng.choice(['VcOrderItem', 'VcAa', 'VcURLEntry', 'VcBigTable_x'])
+    b = rng.choice(['VcZz', 'VcYy'])
+    joins = []
+    jb = []
+    r = rng.random()
+    if r < 0.55:
+        joins = [{'kind': 'related', 'other': b, 'inter': rng.choice([None, None, 'lnk_ab']), 'joinColumn': None,
+                  'otherColumn': None, 'create': True, 'attr': 'to' + b}]
+        if rng.random() < 0.6:
+            jb = [{'kind': 'related', 'other': a, 'inter': joins[0]['inter'], 'joinColumn': None, 'otherColumn': None,
+                   'create': True, 'attr': 'to' + a}]
+    da = simple_decl(a, [intcol('x'), intcol('yVal', notNone=True)], joins=joins)
+    if rng.random() < 0.4:
+        da['indexes'].append({'name': 'ix', 'cols': [['x', None]], 'unique': False})
+    db = simple_decl(b, [intcol('y')], joins=jb)
+    ctx = {'decl': da, 'others': [db]}
+    target = 'link' if (joins and rng.random() < 0.45) else 'table'
+    wanted = spec_inter(da, joins[0], ctx) if target == 'link' else spec_table(da)
+    kind = rng.choice(['wild', 'wild', 'wild', 'wildcase', 'case'])
+    name = decoy_name(rng, wanted, kind)
+    if name is None:
+        kind, name = 'case', wanted.upper()
+    return {'k': 'decoy', 'a': da, 'b': db, 'decoy': name, 'kind': kind, 'target': target}
+
+
 STYLE_ALPHABET = 'aB_IDd1'
 
 
@@ -683,6 +731,13 @@ def corpus():
                                                             col('e', ['enum', ["it's", 'x,y', None]], default=True)],
                                                 indexes=[{'name': 'ix', 'cols': [['name', None], ['n', 10]], 'unique': True}]),
                 'others': [], 'caps': base_caps, 'exec': True})
+    # the seeded scenario c14_sqlite_tableexists_like: a legacy table order2item, the class maps to order_item
+    out.append({'k': 'decoy', 'a': simple_decl('OrderItem', [intcol('qty'), intcol('sku', notNone=True)]),
+                'b': simple_decl('VcZz', [intcol('y')]), 'decoy': 'order2item', 'kind': 'wild', 'target': 'table'})
+    out.append({'k': 'decoy', 'a': simple_decl('VcAa', [intcol('x')], joins=[
+                    {'kind': 'related', 'other': 'VcZz', 'inter': None, 'joinColumn': None, 'otherColumn': None,
+                     'create': True, 'attr': 'toVcZz'}]),
+                'b': simple_decl('VcZz', [intcol('y')]), 'decoy': 'vcXaa2vc9zz', 'kind': 'wild', 'target': 'link'})
     out.append({'k': 'style', 's': 'XMLFile'})
     out.append({'k': 'style', 's': 'fooId'})
     out.append({'k': 'style', 's': 'a_1'})
@@ -691,11 +746,12 @@ def corpus():
 
 def generate(rng, tier):
     out = []
-    n = {'quick': (1400, 300, 300, 300, 600, 4), 'thorough': (30000, 4000, 4000, 4000, 8000, 5)}[tier]
+    n = {'quick': (1400, 300, 300, 300, 600, 4, 300), 'thorough': (30000, 4000, 4000, 4000, 8000, 5, 4000)}[tier]
     out += [gen_decl_case(rng) for _ in range(n[0])]
     out += [gen_join_case(rng) for _ in range(n[1])]
     out += [gen_evo_case(rng) for _ in range(n[2])]
     out += [gen_idem_case(rng) for _ in range(n[3])]
+    out += [gen_decoy_case(rng) for _ in range(n[6])]
     out += list(style_enum(n[5]))
     out += [gen_style_case(rng) for _ in range(n[4])]
     # malformed stream: declarations the constructors or the renderers refuse
@@ -719,6 +775,7 @@ def search_cases(rng, tier):
     out += [gen_join_case(rng) for _ in range(600)]
     out += [gen_evo_case(rng) for _ in range(800)]
     out += [gen_idem_case(rng) for _ in range(600)]
+    out += [gen_decoy_case(rng) for _ in range(600)]
     out += list(style_enum(5))
     return out
 
@@ -1135,6 +1192,65 @@ def run_idem(case):
         conn.close()
 
 
+def run_decoy(case):
+    conn = new_sqlite()
+    reg = _registry()
+    try:
+        A = build_class(case['a'], conn, reg)
+        build_class(case['b'], conn, reg)
+        decoy = case['decoy']
+        conn.query('CREATE TABLE %s (zz INT)' % decoy)
+        conn.query('INSERT INTO %s (zz) VALUES (41)' % decoy)
+        table = A.sqlmeta.table
+
+        def state():
+            tables = sorted(t for t in conn.listTables() if t != 'sqlite_sequence')
+            idx = sorted(r[0] for r in conn.queryAll("SELECT name FROM sqlite_master WHERE type='index' AND sql IS NOT NULL"))
+            return tables, idx
+        steps = []
+        o = {'steps': steps, 'table': table}
+        for k, (op, flag) in enumerate([('create', True), ('create', True), ('drop', True), ('drop', True)]):
+            try:
+                if op == 'create':
+                    A.createTable(ifNotExists=flag)
+                else:
+                    A.dropTable(ifExists=flag)
+                err = False
+            except Exception as e:
+                err = True
+            t, i = state()
+            steps.append({'error': err, 'tables': t, 'indexes': i})
+            if k == 1:
+                # the wanted table must be the class's: columns, insert, read back
+                try:
+                    o['cols'] = [r[1] for r in conn.queryAll('PRAGMA table_info(%s)' % table)]
+                except Exception:
+                    o['cols'] = None
+                inst = None
+                try:
+                    inst = A(**{spec_final_name(c): 7 for c in case['a']['cols']})
+                    rid = inst.id
+                    inst.expire()
+                    back = A.get(rid)
+                    o['readback'] = all(getattr(back, spec_final_name(c)) == 7 for c in case['a']['cols'])
+                except Exception as e:
+                    o['readback'] = 'error:' + type(e).__name__
+                try:
+                    for j in case['a']['joins']:
+                        list(getattr(inst, j['attr']))
+                    o['joins_usable'] = inst is not None
+                except Exception as e:
+                    o['joins_usable'] = False
+        try:
+            o['decoy_rows'] = [list(r) for r in conn.queryAll('SELECT * FROM %s' % decoy)]
+        except Exception as e:
+            o['decoy_rows'] = None
+        o['decoy_listed'] = decoy in conn.listTables()
+        return o
+    finally:
+        conn.close()
+
+
 def run_style(case):
     from sqlobject import styles
     s = case['s']
@@ -1161,7 +1277,8 @@ def run_impl(cases):
     out = []
     for c in cases:
         try:
-            o = {'ddl': run_ddl, 'join': run_join, 'evo': run_evo, 'idem': run_idem, 'style': run_style}[c['k']](c)
+            o = {'ddl': run_ddl, 'join': run_join, 'evo': run_evo, 'idem': run_idem, 'style': run_style,
+                 'decoy': run_decoy}[c['k']](c)
         except Exception as e:
             import traceback
             o = {'crash': '%s: %s\n%s' % (type(e).__name__, e, traceback.format_exc()[-600:])}
@@ -1329,7 +1446,7 @@ def cidxsk(x):
 
 
 def ctx_of(case):
-    if case['k'] in ('join', 'idem'):
+    if case['k'] in ('join', 'idem', 'decoy'):
         return {'decl': case['a'], 'others': [case['b']]}
     return case
 
@@ -1378,6 +1495,11 @@ def coq_case(c, o):
         return '(CIdem %s %s %s %s)' % (
             cdecl(c['a'], ctx), cdecl(c['b'], ctxb),
             clist(c['ops'], lambda p: '(%d%%nat, %s, %s)' % ({'create': 0, 'drop': 1, 'rawdrop': 2}[p[0]], cbool(p[1] == 'a'), cbool(p[2]))),
+            clist(o['steps'], lambda s: '(%s, %s, %s)' % (cbool(s['error']), clist(s['tables'], cstr), clist(s['indexes'], cstr))))
+    if k == 'decoy':
+        ctxb = {'decl': c['b'], 'others': [c['a']]}
+        return '(CDecoy %s %s %s %s)' % (
+            cdecl(c['a'], ctx), cdecl(c['b'], ctxb), cstr(c['decoy']),
             clist(o['steps'], lambda s: '(%s, %s, %s)' % (cbool(s['error']), clist(s['tables'], cstr), clist(s['indexes'], cstr))))
     if k == 'evo':
         keep = o['before'][0]
@@ -1596,6 +1718,41 @@ def oracle_idem(c, o):
     return {'failures': fails} if fails else None
 
 
+def oracle_decoy(c, o):
+    """create-if-missing / drop-if-present act on the class's own table, whatever other tables there are"""
+    fails = []
+    a = c['a']
+    ctx = {'decl': a, 'others': [c['b']]}
+    table = spec_table(a)
+    links = [spec_inter(a, j, ctx) for j in a['joins'] if j['kind'] == 'related' and j['create']]
+    st = o['steps']
+    if o['decoy_rows'] != [[41]] or not o['decoy_listed']:
+        fails.append({'kind': 'decoy_touched', 'rows': o['decoy_rows'], 'listed': o['decoy_listed']})
+    if any(s['error'] for s in st[2:]):
+        fails.append({'kind': 'drop_if_exists_raised', 'errors': [s['error'] for s in st]})
+    if c['kind'] == 'case':
+        # a name that differs in letter case only IS the wanted table for sqlite: nothing else is expected
+        return {'failures': fails} if fails else None
+    if any(s['error'] for s in st[:2]):
+        fails.append({'kind': 'create_if_not_exists_raised', 'errors': [s['error'] for s in st]})
+    if table not in st[1]['tables'] or o.get('cols') != [spec_idname(a)] + [spec_dbname(a, col) for col in a['cols']]:
+        fails.append({'kind': 'wanted_table_not_created', 'tables': st[1]['tables'], 'cols': o.get('cols')})
+    for ln in links:
+        if ln not in st[1]['tables']:
+            fails.append({'kind': 'link_table_not_created', 'table': ln, 'tables': st[1]['tables']})
+    if o.get('readback') is not True:
+        fails.append({'kind': 'readback', 'actual': o.get('readback')})
+    if links and o.get('joins_usable') is not True:
+        fails.append({'kind': 'join_unusable'})
+    if (st[0]['tables'], st[0]['indexes']) != (st[1]['tables'], st[1]['indexes']):
+        fails.append({'kind': 'second_create_changed_state'})
+    if table in st[2]['tables'] or any(ln in st[2]['tables'] for ln in links):
+        fails.append({'kind': 'not_dropped', 'tables': st[2]['tables']})
+    if (st[2]['tables'], st[2]['indexes']) != (st[3]['tables'], st[3]['indexes']):
+        fails.append({'kind': 'second_drop_changed_state'})
+    return {'failures': fails} if fails else None
+
+
 def oracle_style(c, o):
     s = c['s']
     if style_domain(s) and o['round'] != s:
@@ -1604,7 +1761,8 @@ def oracle_style(c, o):
 
 
 def oracle(c, o):
-    return {'ddl': oracle_ddl, 'join': oracle_join, 'evo': oracle_evo, 'idem': oracle_idem, 'style': oracle_style}[c['k']](c, o)
+    return {'ddl': oracle_ddl, 'join': oracle_join, 'evo': oracle_evo, 'idem': oracle_idem, 'style': oracle_style,
+            'decoy': oracle_decoy}[c['k']](c, o)
 
 
 # ---------- known findings: each classifier accepts exactly its trigger class
@@ -1681,6 +1839,8 @@ def nontrivial(c, o):
         return bool(c['ops'])
     if k == 'idem':
         return len(c['ops']) >= 2
+    if k == 'decoy':
+        return True
     return o.get('m2u') != c['s'] or o.get('u2m') != c['s']
 
 
